@@ -107,6 +107,17 @@ __log.push(new __TopC(1).v, new __TopC("s").v, __TopC.n);`
   var arrow = (c, q = eval(c)) => typeof av + q; __log.push(arrow("var av = 3"), arrow("4"));
 })();`, code, code2, code)
 	}},
+	{"dynamic-param-eval", true, func(t *rapid.T) string {
+		return `(function() {
+  // a direct eval in a parameter initialiser declares a var in the parameter scope: the call that does not declare comes
+  // first, so a later run of the same Program would see a binding left behind by an earlier run
+  function pf(c, d = c ? eval("var pz = 1; 2") : 0) { var bodyv = d; function g() { return bodyv; } return [typeof pz, d, g()].join(); }
+  __log.push(pf(false), pf(true));
+  var arrow2 = (c, q = eval(c)) => typeof av2 + q; __log.push(arrow2("5"), arrow2("var av2 = 3"));
+  function pg(c, d = eval(c), ...rest) { var inner = 1; return [typeof pgv, d, rest.length, (() => inner)()].join(); }
+  __log.push(pg("7", 1), pg("var pgv = 8; 9", 1, 2));
+})();`
+	}},
 	{"dynamic-with", true, func(t *rapid.T) string {
 		return fmt.Sprintf(`(function() {
   function w(obj, code) { var lv = "local"; with (obj) { eval(code); { let bl = "block"; eval("var fromBlock = bl + lv"); } return [typeof wv, lv, typeof fromBlock, typeof wx === "undefined" ? "-" : wx].join(); } }
